@@ -21,7 +21,7 @@ def run(ctx, replay=None):
                 how = 'trf'
             nug_given = rng.choice([None, 0.0, 0.375, 2.0])
             cases.append({'seed': rng.randrange(10 ** 6), 'model': mname, 'how': how, 'use_nugget': rng.choice([False, True]), 'fit_sigma': rng.choice([None, None, 'linear', 'sqrt', 'exp']),
-                          'n_lags': rng.randint(6, 12), 'toggle': rng.random() < 0.3, 'manual': {'range': rng.choice([10.0, 25.5, 60.0]), 'sill': rng.choice([1.0, 40.0]), 'nugget': nug_given,
+                          'n_lags': rng.randint(6, 12), 'toggle': rng.random() < 0.3, 'zero_nugget_to_fit': rng.random() < 0.5, 'manual': {'range': rng.choice([10.0, 25.5, 60.0]), 'sill': rng.choice([1.0, 40.0]), 'nugget': nug_given,
                                                                    'shape': rng.choice([0.5, 1.5, 2.0])}})
         for case in cases:
             import random
@@ -49,6 +49,11 @@ def run(ctx, replay=None):
                     if mname in ('stable', 'matern'):
                         mk['fit_shape'] = man['shape']
                     V = Variogram(c, v, fit_method='manual', **kw, **mk)
+                    if case.get('zero_nugget_to_fit') and man['nugget']:
+                        # the nugget is switched off again on the living instance and an explicit 0 handed to fit()
+                        _ = V.parameters
+                        V.use_nugget = False
+                        V.fit(nugget=0.0)
                 else:
                     V = Variogram(c, v, fit_method='trf', **kw)
                     fk = dict(range=man['range'], sill=man['sill'])
